@@ -12,6 +12,7 @@ pub mod c05;
 pub mod c10;
 pub mod c12;
 pub mod c16;
+pub mod c17;
 pub mod c18;
 pub mod c19;
 pub mod difflab;
@@ -41,6 +42,7 @@ pub fn lookup(id: &str) -> Option<Prop> {
         "C10" => Prop { isolate: false, level: "model_checking", run: c10::run, replay: c10::replay },
         "C12" => Prop { isolate: false, level: "model_checking", run: c12::run, replay: c12::replay },
         "C16" => Prop { isolate: false, level: "model_checking", run: c16::run, replay: c16::replay },
+        "C17" => Prop { isolate: false, level: "model_checking", run: c17::run, replay: c17::replay },
         "C18" => Prop { isolate: false, level: "model_checking", run: c18::run, replay: c18::replay },
         "C19" => Prop { isolate: false, level: "fault_enumeration", run: c19::run, replay: c19::replay },
         _ => return None,
